@@ -77,7 +77,7 @@ def rnd_user_param(rng, name, earlier_ints):
     # string (latin-1 never fails to decode)
     enc = {"t": "str", "charset": rng.choice(["ISO-8859-1", "ISO-8859-1", "US-ASCII", "UTF-8"])}
     if earlier_ints and rng.random() < 0.4:
-        enc["size"] = ["dyn", rng.choice(earlier_ints), False, [8, 0]]
+        enc["size"] = ["dyn", rng.choice(earlier_ints), rng.random() < 0.4, rng.choice([[8, 0], [8, 0], [1, 0], [1, 8], [8, 8], None])]
     else:
         enc["size"] = ["fixed", rng.choice([8, 16, 24, 32])]
     d = rng.random()
